@@ -347,6 +347,19 @@ Theorem C19_from_to_str_as_float_refuted :
 Proof. exact from_to_str_as_float_refuted. Qed.
 Print Assumptions C19_from_to_str_as_float_refuted.
 
+(* span_stable (Data/Table.v), a hypothesis of the four round-trip theorems above: true for every range and every pandas index
+   object; for a list / tuple / ndarray span it EXCLUDES exactly the label lists pandas rewrites when it builds the index —
+   a None next to other labels (None -> NaN, ints -> floats) and ints mixed with floats (ints -> floats).  It is necessary:
+   the span [1, None] is exported as [1.0, NaN] and that is the span of the rebuilt model (values intact) *)
+Theorem C19_from_to_span_stable_necessary :
+  exists m c t m',
+    wf_model m (length (splabels (fspan m))) /\ span_stable (fspan m) = false /\ cnames c = fnames m /\ cstrict c = false /\
+    model_to_table false false true m = TOk t /\ from_table c t = TOk m' /\
+    splabels (fspan m) = [CInt 1; CNone] /\ splabels (fspan m') = [CFlt (FInt 1); CFlt FNaN] /\
+    fvars m' = fvars m.
+Proof. exact from_to_span_stable_necessary. Qed.
+Print Assumptions C19_from_to_span_stable_necessary.
+
 (* the remaining guards are necessary as well.  strict=True with the status column: InitialisationError *)
 Theorem C19_from_to_strict_with_status_refuted :
   exists m c t, cnames c = fnames m /\ cstrict c = true /\
